@@ -4,6 +4,7 @@ Helper lemmas are in Proofs/C14*.  Every theorem here is about Model/C14, whose 
 addresses, checksum modulus and bit expressions are regenerated from /repo (Gen/C14).
 -/
 import CfVerif.Proofs.C14
+import CfVerif.Proofs.C14Ow
 namespace CfVerif.C14
 open CfVerif
 
@@ -27,6 +28,29 @@ theorem gen_i2c_write : Gen.C14.i2cWriteCompares = ["self.elements['version'] ==
       "self.elements['radio_address'] & 4294967295"] ∧
     Gen.C14.i2cImageSrc = "EEPROM_TOKEN + image" ∧
     Gen.C14.i2cWriteCall = ["self", "0", "struct.unpack('B' * len(image), image)"] := by decide
+
+theorem gen_ow_write : Gen.C14.owWHdrArgs = ["235", "self.pins", "self.vid", "self.pid"] ∧
+    Gen.C14.owWHdrCrcArgs = ["header_crc"] ∧ Gen.C14.owWKeyLenArgs = ["key_encoding", "len(elem_string)"] ∧
+    Gen.C14.owWAreaArgs = ["0", "len(elem)"] ∧ Gen.C14.owWAreaCrcArgs = ["elem_crc"] ∧
+    Gen.C14.owWCrcArgs = ["header_data", "elem_data"] ∧
+    Gen.C14.owWLoopIter = "reversed(list(self.elements.keys()))" ∧
+    Gen.C14.owWAssigns = ["self.elements[element]", "self._rev_element_mapping[element]", "header_data + elem_data"] ∧
+    Gen.C14.owWAug = ["elem += bytearray(elem_string.encode('ISO-8859-1'))", "elem += struct.pack('BB', key_encoding, len(elem_string))",
+      "elem_data += elem", "elem_data += struct.pack('B', elem_crc)", "header_data += struct.pack('B', header_crc)"] ∧
+    Gen.C14.owWriteCall = ["self", "0", "struct.unpack('B' * len(data), data)"] := by decide
+/-- the read path of the REPAIRED `OWElement.new_data` (fixes/D12-c14.patch): on the unrepaired tree these fail -/
+theorem gen_ow_new_data : Gen.C14.owNewDataTests = ["mem.id == self.id", "addr == 0", "self._parse_and_check_header(data[0:8])",
+      "elem_len == 0 and self._parse_and_check_elements(data[8:11])", "self._update_finished_cb", "addr == 8",
+      "self._parse_and_check_elements(data)", "self._update_finished_cb"] ∧
+    Gen.C14.owLenArgs = ["data[8:10]"] ∧ Gen.C14.owLenTargets = ["elem_ver", "elem_len"] ∧
+    Gen.C14.owHdrCallArgs = ["data[0:8]"] ∧ Gen.C14.owElemCallArgs = ["data[8:11]", "data"] := by decide
+theorem gen_ow_parse : Gen.C14.owRHdrArgs = ["data"] ∧ Gen.C14.owRHdrTargets = ["start", "self.pins", "self.vid", "self.pid", "crc"] ∧
+    Gen.C14.owRHdrCrcArgs = ["data[:-1]"] ∧ Gen.C14.owRHdrCompares = ["start == 235", "crc == test_crc"] ∧
+    Gen.C14.owRTlvArgs = ["elem_data[:2]"] ∧ Gen.C14.owRTlvTargets = ["eid", "elen"] ∧
+    Gen.C14.owRElemCrcArgs = ["data[:-1]"] ∧ Gen.C14.owRElemCompares = ["test_crc == crc", "len(elem_data) > 0"] ∧
+    Gen.C14.owRElemAssigns = ["data[-1]", "data[2:-1]", "elem_data[2 + elen:]", "elem_data[2:2 + elen].decode('ISO-8859-1')"] ∧
+    Gen.C14.owRLoopCond = "len(elem_data) > 0" ∧
+    Gen.C14.owNames = ["Board name", "Board revision", "Custom"] := by decide
 
 /-! ## EEPROM radio configuration -/
 
@@ -109,6 +133,74 @@ theorem i2c_single_corruption_detected_counterexample :
   rw [this] at h1
   cases h1
   cases h2
+
+/-! ## 1-wire deck identity (the REPAIRED parser; the parser of the unrepaired tree is `owUpdateLive`) -/
+
+/-- Round trip: whatever image `write_data` produces for pins/vid/pid and an element dict (distinct keys, as in any
+Python dict) parses back, from any memory it was written into, to the same pins/vid/pid and to exactly the written
+elements (in the order they were written = reversed dict order), valid.  Every section length, every first id. -/
+theorem ow_roundtrip (o : OWData) (img : List UInt8) (h : owImage o = .ok img)
+    (hnd : (o.elements.map (·.1)).Nodup) (m : Mem) :
+    owUpdate (m.write 0 img) =
+      .ok ⟨o.pins.toNat, o.vid.toNat, o.pid.toNat, owExpect o.elements.reverse, true, true⟩ :=
+  ow_roundtrip_aux o img h hnd m
+
+/-- ... and so every element reads back with the written value (dict equality does not depend on the order). -/
+theorem ow_roundtrip_lookup (o : OWData) (k : Nat) (v : List Nat) (hkv : (k, v) ∈ o.elements) :
+    (k, v.map UInt8.ofNat) ∈ owExpect o.elements.reverse := by
+  unfold owExpect
+  exact List.mem_map.mpr ⟨(k, v), by simpa using hkv, rfl⟩
+
+/-- The parser reads the memory as the firmware lays it out: header 0xEB, pins u32, vid, pid, CRC; section version,
+length, TLVs, CRC (positional decoder `owDecode`), for every memory that holds the announced section. -/
+theorem ow_update_is_layout (m : Mem) (hL : 11 + owSectLen m ≤ m.length) : owUpdate m = owDecode m :=
+  owUpdate_eq_decode m hL
+
+/-- Validity follows the CRCs: for EVERY memory content on which the parse completes, the image is reported valid
+exactly when the header starts with 0xEB, the header CRC byte equals the low byte of CRC-32 over the 7 header bytes
+and the section CRC byte equals the low byte of CRC-32 over version, length and element bytes. -/
+theorem ow_valid_iff_crc (m : Mem) (hL : 11 + owSectLen m ≤ m.length) (r : OWParsed) (h : owUpdate m = .ok r) :
+    r.valid = true ↔
+      ((m.getD 0 0).toNat = 0xEB ∧ (m.getD 7 0).toNat = crc32 (m.take 7) % 256) ∧
+      crc32 (slice m 8 (10 + owSectLen m)) % 256 = (m.getD (10 + owSectLen m) 0).toNat := by
+  rw [ow_valid_iff_aux m hL r h]
+  simp [owHdrOK, owSectOK]
+
+/-- The parse completes (no exception escapes `new_data`) exactly when the TLV walk over the section does: an
+unknown element id (KeyError) or a dangling byte (struct.error) inside a CRC-correct section is not reported at all. -/
+theorem ow_completes_iff (m : Mem) (hL : 11 + owSectLen m ≤ m.length)
+    (hh : (m.getD 0 0).toNat = 0xEB ∧ (m.getD 7 0).toNat = crc32 (m.take 7) % 256)
+    (hs : crc32 (slice m 8 (10 + owSectLen m)) % 256 = (m.getD (10 + owSectLen m) 0).toNat) :
+    (∃ r, owUpdate m = .ok r) ↔ ∃ d, owTlv (owSectLen m) (slice m 10 (10 + owSectLen m)) [] = .ok d := by
+  rw [owUpdate_eq_decode m hL]
+  unfold owDecode
+  have h1 : owHdrOK m = true := by unfold owHdrOK; rw [decide_eq_true hh.1, decide_eq_true hh.2]; rfl
+  have h2 : owSectOK m = true := by unfold owSectOK; exact decide_eq_true hs
+  simp only [h1, h2, if_true]
+  cases owTlv (owSectLen m) (slice m 10 (10 + owSectLen m)) [] <;> simp
+
+/-- D12 (the code as it is in /repo today): elements = {'Board revision': 'abc'}, pins 0x0C, vid 0xBC, pid 1.
+The section is 5 bytes long and starts with id 2; crc32([5]) & 0xff = 2, so the two-byte shortcut `data[9:11]`
+accepts and the image is reported VALID WITH NO ELEMENTS. -/
+def d12Data : OWData := { pins := 0x0C, vid := 0xBC, pid := 1, elements := [(2, [97, 98, 99])] }
+def d12Image : List UInt8 := [0xeb, 0x0c, 0, 0, 0, 0xbc, 0x01, 0xca, 0x00, 0x05, 0x02, 0x03, 0x61, 0x62, 0x63, 0x93]
+theorem d12_image : owImage d12Data = .ok d12Image := by decide +kernel
+theorem ow_roundtrip_live_counterexample :
+    ¬ (∀ (o : OWData) (img : List UInt8), owImage o = .ok img → (o.elements.map (·.1)).Nodup → ∀ m : Mem,
+        owUpdateLive (m.write 0 img) =
+          .ok ⟨o.pins.toNat, o.vid.toNat, o.pid.toNat, owExpect o.elements.reverse, true, true⟩) := by
+  intro h
+  have h1 := h d12Data d12Image d12_image (by decide) []
+  have h2 : owUpdateLive (Mem.write [] 0 d12Image) = .ok ⟨12, 188, 1, [], true, true⟩ := by decide +kernel
+  rw [h2] at h1
+  exact absurd h1 (by decide)
+/-- the repaired parser on the same image -/
+example : owUpdate (Mem.write [] 0 d12Image) = .ok ⟨12, 188, 1, [(2, [97, 98, 99])], true, true⟩ := by decide +kernel
+/-- D12 also breaks "valid exactly when the CRC matches": with the last element byte corrupted (section CRC wrong)
+the unrepaired parser still reports valid. -/
+theorem ow_valid_iff_crc_live_counterexample :
+    owUpdateLive (d12Image.set 14 0x64) = .ok ⟨12, 188, 1, [], true, true⟩ ∧
+    owUpdate (d12Image.set 14 0x64) = .ok ⟨12, 188, 1, [], false, true⟩ := by decide +kernel
 
 example : i2cImage { version := 1, channel := 80, speed := 2, pitch := 0, roll := 0x3f800000, address := some 0xE7E7E7E7E7 } =
     .ok [48, 120, 66, 67, 1, 80, 2, 0, 0, 0, 0, 0, 0, 128, 63, 231, 231, 231, 231, 231, 194] := by decide
